@@ -97,6 +97,18 @@ def answer (w : World) (q : Q) (path : String) (args : List String) : Except Str
         | some none => "unsat"
         | some (some i) => "item=" ++ showItem i)
     | none => .error "needs h"
+  | "many_w" | "many_v" | "many_vb" | "many_pv" =>
+    -- `query_many_mut` / `get_many_mut`: a handle listed twice is refused by panicking
+    match (field args "es").bind entities? with
+    | some es =>
+      if es.eraseDups.length != es.length then .ok "panic"
+      else if path == "many_w" then
+        .ok ("r=" ++ showList (fun e => match w.queryOne q e with
+          | none => "nosuch"
+          | some none => "unsat"
+          | some (some i) => "item=" ++ showItem i) es)
+      else .ok ("g=" ++ showList (fun e => showOptItem (w.viewGet q e)) es)
+    | none => .error "many_* needs es"
   | "sat" =>
     match h with
     | some e => .ok (match w.satisfiesQ q e with
@@ -151,6 +163,22 @@ def specCheck (s : Spec.SpecW) (q : Q) (path : String) (args : List String) (rhs
     if field toks "items" != some (showPairs want) then .error s!"view iteration must yield exactly the matching entities once: spec={showPairs want}"
     else if field toks "g" != some g then .error s!"view random access differs from the abstract map: spec g={g}"
     else .ok ()
+  | "many_w" | "many_v" | "many_vb" | "many_pv" =>
+    match (field args "es").bind entities? with
+    | some es =>
+      let r := rhs.trimAscii.toString
+      if es.eraseDups.length != es.length then
+        if r == "panic" then .ok ()
+        else .error "simultaneous access to one entity through two array slots was granted (C05: it must panic)"
+      else if path == "many_w" then
+        let w := "r=" ++ showList one es
+        if r == w then .ok () else .error s!"query_many_mut differs from the abstract map: spec={w}"
+      else
+        let g := "g=" ++ showList (fun e => match s.lookup e with
+          | some cs => if q.sat (cs.map (·.1)) then showItem (specItem q cs) else "-"
+          | none => "-") es
+        if r == g then .ok () else .error s!"get_many_mut differs from the abstract map: spec={g}"
+    | none => .error "many_* needs es"
   | "batched" | "mut_batched" =>
     match (field args "n").bind String.toNat?, field toks "batches" with
     | some n, some b =>
